@@ -279,6 +279,19 @@ func (sb *ScriptedBackend) behave(bc *BackendConn) {
 	case "drop":
 		at.set("kicked")
 		return // close without a word: the proxy sees the connection end during login
+	case "loginok":
+		// login succeeds, then the backend goes quiet before JoinGame (legacy clients: the proxy
+		// is in its transition handler)
+		at.set("stalled")
+		id := bc.UUID
+		if !bc.HasUUID {
+			id = OfflineUUID(bc.Name)
+		}
+		if err := bc.WritePacket(LoginSuccessID, LoginSuccessPayloadAny(bc.Proto, id, bc.Name)); err != nil {
+			return
+		}
+		sb.drain(bc, 90*time.Second)
+		return
 	case "hang":
 		at.set("stalled")
 		sb.drain(bc, 90*time.Second) // until the proxy gives up and closes
